@@ -47,7 +47,7 @@ def lockFacts : List MethodFact := [
   ⟨"alreadySeenWithInfo", false, false, false, false, ⟨true, false, []⟩, ⟨false, false, []⟩⟩,
   ⟨"backupDirs", false, false, false, false, ⟨false, true, ["backupRequired", "setInfoIfNotAlreadySeen"]⟩, ⟨false, false, []⟩⟩,
   ⟨"backupRequired", false, false, false, false, ⟨false, false, ["Lstat", "alreadySeenWithInfo", "setInfoIfNotAlreadySeen"]⟩, ⟨false, false, []⟩⟩,
-  ⟨"realPath", false, false, false, false, ⟨false, false, ["alreadySeen"]⟩, ⟨false, false, []⟩⟩,
+  ⟨"realPath", false, false, false, false, ⟨false, false, []⟩, ⟨false, false, []⟩⟩,
   ⟨"realPathWithFound", false, false, false, false, ⟨false, false, []⟩, ⟨false, false, []⟩⟩,
   ⟨"remove", false, false, false, false, ⟨false, true, ["realPath", "tryBackup"]⟩, ⟨false, false, []⟩⟩,
   ⟨"setInfoIfNotAlreadySeen", false, false, false, false, ⟨true, false, []⟩, ⟨false, false, []⟩⟩,
